@@ -132,13 +132,13 @@ Print Assumptions C16_date_string_agree.
 (** ---- the same instant on every path: the call sites (Model/TimeSites.v) ---- *)
 
 (** For every string literal, the payload normaliser, the WHERE row filter, the SINCE row
-    filter, the planner's literal rewriting, the zone pruner and the materialised-query
-    SINCE comparison read the same second — the pruner sees [pruner_view z], which is
-    [max z 0] in the pinned tree (class NegativeInstantClampedByPruner) and [z] once
-    [tsite_pruner_clamps] is regenerated as false; the materialiser clamps at 0.  A literal no
-    parser accepts is an error for the payload, a string condition for WHERE, ignored for
-    SINCE, left alone by the planner, and the default value for the pruner unless the u64
-    fall-back takes it, in which case it wraps negative (class UnparsableSinceU64WrapsNegative). *)
+    filter, the planner's literal rewriting and the zone pruner (raw string and rewritten
+    integer) read exactly the same second, instants before 1970 included; the materialised-query
+    SINCE comparison clamps it at 0 (its watermark is unsigned).  A literal no parser accepts is
+    an error for the payload, a string condition for WHERE, ignored for SINCE, left alone by
+    the planner and [i64::MIN] ("restricts nothing") for the pruner.
+    (Before fix db7c428 the pruner read [max z 0] and fell back to u64; classes
+    NegativeInstantClampedByPruner and UnparsableSinceU64WrapsNegative.) *)
 Theorem C16_sites_agree : forall (s : bytes) (ft : ftype),
   temporal_ft ft ->
   match parse_str_to_epoch_seconds s with
@@ -147,93 +147,99 @@ Theorem C16_sites_agree : forall (s : bytes) (ft : ftype),
       /\ site_where (TStr s) = CNum z
       /\ site_since_row s = SinceNum z
       /\ site_filter ft (TStr s) = SInt z
-      /\ pruner_ts (site_since_filter s) = pruner_view z
-      /\ pruner_ts (site_filter ft (TStr s)) = pruner_view z
+      /\ pruner_ts (site_since_filter s) = z
+      /\ pruner_ts (site_filter ft (TStr s)) = z
       /\ parse_since_epoch s = Some (Z.max z 0)
   | None =>
       site_payload ft (Some (TStr s)) = PErr
       /\ site_where (TStr s) = CStr
       /\ site_since_row s = SinceIgnored
       /\ site_filter ft (TStr s) = SUtf8 s
-      /\ (pruner_ts (SUtf8 s) = tsite_pruner_unparsable
-          \/ (tsite_pruner_u64_fallback = true /\ wrap_i64 (pruner_ts (SUtf8 s)) < 0))
+      /\ pruner_ts (SUtf8 s) = - 2 ^ 63
   end.
 Proof. exact sites_agree. Qed.
 Print Assumptions C16_sites_agree.
 
-Theorem C16_sites_agree_nonneg : forall s ft z,
-  temporal_ft ft -> parse_str_to_epoch_seconds s = Some z -> 0 <= z ->
-  site_payload ft (Some (TStr s)) = PNum z
-  /\ site_where (TStr s) = CNum z
-  /\ site_since_row s = SinceNum z
-  /\ site_filter ft (TStr s) = SInt z
-  /\ pruner_ts (SUtf8 s) = z
-  /\ pruner_ts (SInt z) = z
-  /\ parse_since_epoch s = Some z.
-Proof. exact sites_agree_nonneg. Qed.
-Print Assumptions C16_sites_agree_nonneg.
+(** The materialiser's `parse::<u64>()` fall-back only ever takes 20-digit numbers. *)
+Theorem C16_matspec_u64_fallback_range : forall s u,
+  parse_str_to_epoch_seconds s = None -> parse_since_epoch s = Some u -> 10 ^ 19 <= u <= u64_max.
+Proof. exact matspec_u64_fallback_range. Qed.
+Print Assumptions C16_matspec_u64_fallback_range.
 
-(** The `parse::<u64>()` fall-back of the pruner can only produce values that wrap negative. *)
-Theorem C16_u64_fallback_wraps_negative : forall s u,
-  parse_str_to_epoch_seconds s = None -> parse_u64_str s = Some u ->
-  10 ^ 19 <= u <= u64_max /\ wrap_i64 u < 0.
-Proof. exact u64_fallback_wraps_negative. Qed.
-Print Assumptions C16_u64_fallback_wraps_negative.
-
-(** Outside the known classes (literal instant and all stamps of the zone in [0, 2^32),
-    operator =, >, >=, <, <=) the zone pruner keeps every zone that holds an event whose
-    stored instant satisfies the comparison — over the artifacts the temporal builder writes. *)
+(** The zone pruner, over the artifacts the temporal builder writes, keeps every zone that
+    holds an event whose stored instant satisfies the comparison (=, >, >=, <, <=): for every
+    literal second from i64::MIN up to 2^32 and every zone whose stamps are below 2^32 —
+    literals and stamps before 1970 included.  The only exclusion left is the u32 truncation of
+    bucket ids (class CalendarBucketWrapsAfter2106). *)
 Theorem C16_prune_sound_outside_known : forall flag op v zones z t,
-  0 <= v < u32_mod ->
-  In z zones -> 0 <= zmin z -> zmax z < u32_mod ->
+  - 2 ^ 63 <= v < u32_mod ->
+  In z zones -> zmax z < u32_mod ->
   In t (z_ts z) -> cmp_holds op t v ->
   exists ids, prune flag op (SInt v) zones = Some ids /\ In (z_id z) ids.
-Proof. exact prune_sound_in_range. Qed.
+Proof. exact prune_sound. Qed.
 Print Assumptions C16_prune_sound_outside_known.
 
 Theorem C16_prune_sound_literal : forall flag op s v zones z t,
   parse_str_to_epoch_seconds s = Some v ->
-  0 <= v < u32_mod ->
-  In z zones -> 0 <= zmin z -> zmax z < u32_mod ->
+  - 2 ^ 63 <= v < u32_mod ->
+  In z zones -> zmax z < u32_mod ->
   In t (z_ts z) -> cmp_holds op t v ->
   exists ids, prune flag op (SUtf8 s) zones = Some ids /\ In (z_id z) ids.
 Proof. exact prune_sound_literal. Qed.
 Print Assumptions C16_prune_sound_literal.
 
-(** The same statement for the code shapes of fixes/C16-pre-epoch-time-values.diff (zones
-    always registered, range clamped at 0; signed literal, only the calendar lookup clamped):
-    every literal instant below 2^32 — negative ones included — and every zone whose stamps are
-    below 2^32 — pre-epoch stamps included.  It becomes the statement about the code as soon
-    as tools/params/p11_timesites.py reads those shapes from the Rust text. *)
-Theorem C16_prune_sound_after_fix : forall fb dflt flag op v zones z t,
+(** A SINCE literal that no parser accepts is ignored by the row filter and rules out no zone
+    (no bound on the stamps). *)
+Theorem C16_unparsable_since_keeps_all : forall flag s zones z,
+  parse_str_to_epoch_seconds s = None ->
+  In z zones -> - 2 ^ 63 <= zmax z ->
+  site_since_row s = SinceIgnored /\
+  exists ids, prune flag OGte (site_since_filter s) zones = Some ids /\ In (z_id z) ids.
+Proof. exact unparsable_since_keeps_all. Qed.
+Print Assumptions C16_unparsable_since_keeps_all.
+
+(** The field selector on a temporal filter (pruner answer, or all zones when the pruner has
+    none for `!=`) keeps every zone holding a match for all six comparison operators ... *)
+Theorem C16_select_sound : forall flag op v zones z t,
   - 2 ^ 63 <= v < u32_mod ->
   In z zones -> zmax z < u32_mod ->
-  In t (z_ts z) -> cmp_holds op t v ->
-  exists ids, prune_gen false false fb dflt flag op (SInt v) zones = Some ids /\ In (z_id z) ids.
-Proof. exact prune_sound_after_fix. Qed.
-Print Assumptions C16_prune_sound_after_fix.
+  In t (z_ts z) -> cmp_holds_sel op t v ->
+  In (z_id z) (select_zones flag op (SInt v) zones).
+Proof. exact select_sound. Qed.
+Print Assumptions C16_select_sound.
 
-(** ... and the pruner does lose matching zones in each known class (concrete witnesses). *)
-Theorem C16_prune_refuted :
-  (* PreEpochZoneNotInCalendar *)
-  prune false OEq (SInt 500) [mkZone 1 [0; 0]; mkZone 4 [-5; 500]] = Some []
-  (* NegativeInstantClampedByPruner *)
-  /\ prune false OGt (SInt (-1)) [mkZone 1 [0; 0]; mkZone 2 [10; 20]] = Some [2%N]
-  (* CalendarBucketWrapsAfter2106 *)
-  /\ prune false OGte (SInt 315532800) [mkZone 3 [4295399296; 4295399297]] = Some []
-  (* UnparsableSinceU64WrapsNegative *)
-  /\ (site_since_row [49;48;48;48;48;48;48;48;48;48;48;48;48;48;48;48;48;48;48;48]%N = SinceIgnored
-      /\ prune false OGte (SUtf8 [49;48;48;48;48;48;48;48;48;48;48;48;48;48;48;48;48;48;48;48]%N)
-           [mkZone 1 [0; 0]; mkZone 2 [10; 20]] = Some [])
-  (* TemporalNeqPrunesAllZones *)
-  /\ (forall flag sv zones, prune flag ONeq sv zones = None).
-Proof.
-  exact (conj (proj1 pre_epoch_zone_refuted)
-        (conj (proj1 (proj2 negative_literal_refuted))
-        (conj (proj1 bucket_wrap_refuted)
-        (conj unparsable_since_refuted neq_refuted)))).
-Qed.
-Print Assumptions C16_prune_refuted.
+(** ... and `!=` rules out no zone at all, whatever the literal and the stamps
+    (was class TemporalNeqPrunesAllZones, fix f801704). *)
+Theorem C16_select_neq_keeps_all : forall flag sv zones z,
+  In z zones -> In (z_id z) (select_zones flag ONeq sv zones).
+Proof. exact select_neq_keeps_all. Qed.
+Print Assumptions C16_select_neq_keeps_all.
+
+(** The remaining known class: bucket ids truncated to u32 (a zone of 2106 is lost by
+    `t >= 1980-01-01`). *)
+Theorem C16_bucket_wrap_refuted :
+  prune false OGte (SInt 315532800) [mkZone 3 [4295399296; 4295399297]] = Some []
+  /\ cmp_holds OGte 4295399296 315532800.
+Proof. exact bucket_wrap_refuted. Qed.
+Print Assumptions C16_bucket_wrap_refuted.
+
+(** ---- JSON numbers ---- *)
+
+(** A number serde_json keeps as f64 is stored as the floor of the written value or rejected —
+    never as a saturated second count (fix 8f02d15). *)
+Theorem C16_json_float_floor_or_rejected : forall m e z,
+  normalize_json_number (JDec m e) = Some z -> z = floor_dec m e /\ i64_min <= z <= i64_max.
+Proof. exact json_float_floor_or_rejected. Qed.
+Print Assumptions C16_json_float_floor_or_rejected.
+
+(** A JSON integer literal of any size in a time field is normalised like the same digits as a
+    string, or rejected; never stored as another second
+    (was class JsonIntegerBelowI64ReadAsFloatSeconds). *)
+Theorem C16_json_integer_never_misread : forall z,
+  normalize_json_number (jnum_of_integer z) = normalize_integer_epoch z
+  \/ normalize_json_number (jnum_of_integer z) = None.
+Proof. exact json_integer_never_misread. Qed.
+Print Assumptions C16_json_integer_never_misread.
 
 (** A numeric string reaches [normalize_integer_epoch] whatever its value (the RFC 3339
     and date-only branches reject every optionally signed digit string). *)
